@@ -873,6 +873,7 @@ def gen_jobs(ctx, rng, n, prefix, tag0=0):
             except Exception:
                 continue
             path, _style = gen_path(rng, b.GENF, prefix, bucket='shallow')
+            path = fix_path_for(leaf, path)
             jobs.append({'kind': 'raise_unpicklable',
                          'desc': {'op': 'raise', 'path': path, 'leaf': leaf},
                          'meta': {'bad': leaf['bad_arg'], 'nest': 'exc_arg',
